@@ -77,10 +77,17 @@ J gen(uint64_t seed, bool thorough) {
   sc["dx"] = r.chance(0.3);
   J ops = J::arr();
   long left = T; int nseg = (int)r.range(1, 4);
+  bool scaled_once = false;
   for (int s = 0; s < nseg && left > 0; s++) {
     long n = s == nseg - 1 ? left : r.range(1, std::max<long>(1, left - (nseg - 1 - s)));
     J op = J::obj(); op["w"] = 0; op["op"] = "run"; op["n"] = (long long)n; ops.push(op); left -= n; sig += "r";
-    if (s < nseg - 1 && r.chance(0.5)) { J o2 = J::obj(); o2["w"] = 0; o2["op"] = "restart"; ops.push(o2); sig += "S"; }
+    if (s < nseg - 1 && r.chance(0.5)) {
+      J o2 = J::obj(); o2["w"] = 0; o2["op"] = "restart";
+      // a third of the restarts through a text state continue "a run a million times as long": every count in the state file is multiplied
+      // by a large odd factor before it is loaded (counts of a long run have more significant digits than those of 100 steps)
+      if (!ec.binary_state && !scaled_once && r.chance(0.35)) { scaled_once = true; static const long long ks[] = {1000003LL, 12345679LL, 1000000007LL}; o2["scale"] = ks[r.below(3)]; sig += "L"; }
+      ops.push(o2); sig += "S";
+    }
   }
   sc["template"] = sig + (ec.binary_state ? "/bin" : "/txt");
   plan["scenario"] = sc;
@@ -235,6 +242,29 @@ RunResult run(J const &plan) {
       if (e->configure(conf) != COLVARS_OK || cvm::get_error()) { res.counters["probe.configuration_refused"]++; break; }
       e->first_step = at_step;
       hook(e.get());
+      if (op.has("scale") && !vector_mode) {
+        long long K = op.at("scale").as_int(1); std::string st;
+        if (fs().get("/simfs/w0/out.colvars.state", st)) {
+          size_t hb = st.find("histogram {"), g = hb == std::string::npos ? hb : st.find("grid", hb), q = g == std::string::npos ? g : g + 4;
+          if (q != std::string::npos) {
+            std::string outnum; size_t pos = q; bool ok = true;
+            for (;;) {
+              while (pos < st.size() && isspace((unsigned char)st[pos])) pos++;
+              if (pos >= st.size() || st[pos] == '}') break;
+              char *end = nullptr; double v = strtod(st.c_str() + pos, &end);
+              if (end == st.c_str() + pos) { ok = false; break; }
+              char buf[64]; snprintf(buf, sizeof buf, " %.0f", v * (double)K); outnum += buf; pos = (size_t)(end - st.c_str());
+            }
+            if (ok) {
+              st = st.substr(0, q) + "\n" + outnum + "\n" + st.substr(pos);
+              fs().put("/simfs/w0/out.colvars.state", st);
+              for (auto &kv : model) kv.second *= K;
+              eligible_in_range *= K;
+              res.counters["fault.state_counts_scaled_as_after_a_long_run"]++;
+            }
+          }
+        }
+      }
       if (e->load_state("/simfs/w0/out") != COLVARS_OK) { res.fail("histogram", "state_not_loaded", e->last_error()); break; }
       first_of_instance = true; last_step = -1; restarts++;
     }
